@@ -11,6 +11,7 @@ mod erase;
 mod sites;
 mod analysis;
 mod props_static;
+mod props_dynamic;
 mod checks;
 
 use serde_json::{json, Value};
